@@ -386,6 +386,7 @@ Section Interp.
             | _, _ => GStuck "index of something that is not a map with string keys"
             end))))
       | GEMakeMap => k [SVFreshMap] w
+      | GEIndex _ _ => GStuck "an expression of the third fragment (Lib/GoStmt.v): no meaning for the set's state machine"
       | GEUnknown src => GNotUnderstood src
       end.
 
@@ -516,6 +517,8 @@ Section Interp.
               sf_eval r env w (one (fun rv w1 => sf_eval_each args env w1 (fun vs w2 => kn env (DCall rv m vs :: ds) w2)))
           | _ => GStuck "defer of something that is not a method call"
           end
+      | GSVar _ _ | GSRangeSet _ _ _ _ | GSResults _ =>
+          GStuck "a statement of the third fragment (Lib/GoStmt.v): no meaning for the set's state machine"
       | GSUnknown src => GNotUnderstood src
       end.
 
